@@ -3,6 +3,8 @@
 // program are judged, call by call, against a sequential state-machine model of the service
 // written in Go; after every call the residue of the core (verifCoreExit hook), the core list,
 // the core-list lock (TryLock, never blocking) and the goroutines inside Core.Run are inspected.
+// service.go holds the single-core functions, service2.go the stored iterables (ranges in globals,
+// fields, elements, locals) and the relay functions (work handed over to threads).
 package c16
 
 import (
@@ -24,16 +26,18 @@ func (c16) Info(tier string) fw.Info {
 	return fw.Info{
 		Level: "exploration",
 		Rule: "each case is one history of 5-60 host invocations (SpawnSync, 10% as SpawnAsync+Wait+HandleTermination) on ONE VM of a compiled service program " +
-			fmt.Sprintf("(%d functions over 7 globals; variants: shuffled definition order, two sets of initial global values, three core limit sets, optional trigger annotation + event function (NewVM -> annotation argument function -> main), optional no-op cancel function); ", len(specs)) +
-			"functions and well-typed argument values (boundary ints/floats/strings, lists, objects, options, any-objects) are drawn from a PRNG seeded by VERIF_SEED; about 1 call in 30 is a failing one (uncaught throw, index out of bounds, division by zero, call-stack overflow, fatal error inside try inside a loop). " +
+			fmt.Sprintf("(%d functions over 10 globals; variants: shuffled definition order, two sets of initial global values, three core limit sets, optional trigger annotation + event function (NewVM -> annotation argument function -> main), optional no-op cancel function, optional relay functions); ", len(specs)) +
+			"functions and well-typed argument values (boundary ints/floats/strings, lists, objects, options, any-objects) are drawn from a PRNG seeded by VERIF_SEED; about 1 call in 30 is a failing one (uncaught throw - also out of a for loop and in the last thread of a hand-over chain -, index out of bounds, division by zero, call-stack overflow, fatal error inside try inside a loop). " +
+			"Stored iterables: a range in a global (bounds assignable), ranges in an object field / a list element / a local, a string and lists are iterated by for loops that are left by return, break, continue, a caught and an uncaught throw, nested in themselves and re-entered through a call; the generator often calls an observer (or the same function again) right after such a call. " +
+			"Relay variant (1 history in 6): the invoked function hands its work over to threads (one thread, chains of two and three threads each started by the previous one, two chains side by side, the invoking core busy meanwhile), every stage spins 0-30000 iterations so that cores finish - and are reaped by Wait - in every order; for half of these histories the schedule is perturbed through the verifYield/verifCoreExit hooks: a core about to start a thread and a thread about to signal its exit is held (at most 25 ms) until Wait has removed every core that finished before (the verdict never depends on the waiting time). " +
 			"Every call is compared with a sequential model of the service (globals state machine in Go): a completed call must return exactly the model's value with the declared dynamic type (nil/null for null functions), a failing call must fail with the model's fatal kind (and thrown message). " +
-			"After every completed call: exactly one core signalled its exit, with operand stack = exactly the return value (empty for null functions), no call frames, memory pointer 0, no exception handlers. After every call: core list empty, Cores.Lock acquirable by TryLock (a leaked lock is reported and NO further call is attempted, so no worker ever blocks), no goroutine left inside runtime.(*Core).Run (a goroutine blocked in a channel send after the call returned can never proceed). " +
-			"AFTER A FAILED CALL the property only demands an answer instead of blocking: Wait() cancels the shared context on failure, so the VM answers every later call with a termination failure; the oracle accepts ANY failure answer for every call after the first failed one, and rejects blocking (lock precondition), a host crash, and a successful answer that differs from the model (which keeps tracking the partial effects of the failed call; with a no-op cancel function later calls really execute and must be right). " +
+			"After every completed call: every core started during the call (counted at verifYield(\"spawn\")) has signalled its exit before the call returned, their number is 1 + the number of threads the function starts, and the core of the invoked function exited with operand stack = exactly the return value (null for null functions), no call frames, memory pointer 0, no exception handlers. After every call: core list empty, Cores.Lock acquirable by TryLock (a leaked lock is reported and NO further call is attempted, so no worker ever blocks), no goroutine left inside runtime.(*Core).Run (a goroutine blocked in a channel send after the call returned can never proceed). " +
+			"AFTER A FAILED CALL the VM must answer later calls with a failure instead of blocking: Wait() cancels the shared context on failure; whenever the context is observed cancelled before a call (ctx.Err() != nil), ANY failure answer is accepted and a regular result is a violation (the call must not execute: the model state is not advanced); histories with a real cancel function end with one arbitrary call, one call of a few instructions (less than one 50-instruction scheduling cycle) and one of thousands. With a no-op cancel function the context stays live, later calls really execute and must agree with the model (which keeps the partial effects of the failed call). Blocking (lock precondition) and a host crash are rejected in both modes. " +
 			"non-trivial = some completed call of the history read a global that an EARLIER call of the same history wrote (the model marks reads/writes per function); distinct = distinct payload. " +
 			"While a finding is open its construct is kept out of the main workload and exercised by a small tagged workload: " + kfLock + " (main histories end at the first failed call and the lock state after it is not evaluated), " + kfAnyObj + " (no { ? } return type), " + kfOrphan + " (no spawn-then-throw), " + kfExpr + " (no return out of an operand position).",
 		Assumptions: []string{
 			"one host goroutine calls the VM at a time (concurrent host calls are outside the statement); arguments are well-typed (SpawnSync refuses others by design)",
-			"the step budget per call (3M instructions) exceeds every modelled call by two orders of magnitude; exceeding it is reported as a violation (the call does not return), the wall-clock watchdog only yields inconclusive",
+			"the step budget per call (3M instructions) exceeds every modelled call of the invoked function's core by an order of magnitude (threads are not budgeted); exceeding it is reported as a violation (the call does not return), the wall-clock watchdog only yields inconclusive",
 			"call depths between half and twice the call-stack limit are not generated (the limit is polled every 50 instructions)",
 			"the model shares no code with /repo; value conversion uses hv/valuni",
 		},
@@ -108,8 +112,16 @@ func (c16) Cases(tier string, seed uint64) []fw.Case {
 		if !exprOpen && r.Chance(1, 3) {
 			o.variant.Leaky = true
 		}
+		if !o.variant.Spawn && r.Chance(1, 6) {
+			o.variant.Relay = true
+			o.favour = relayFavour
+			if o.n > 30 {
+				o.n = 30
+			}
+		}
 		pl, ff := genHistory(r, o)
 		pl.SkipLockAfterFailure = lockOpen
+		pl.Reap = o.variant.Relay && r.Bool()
 		mk(fmt.Sprintf("h%05d", i), "hist", pl, ff)
 	}
 
@@ -173,6 +185,9 @@ func (c16) Cases(tier string, seed uint64) []fw.Case {
 	return out
 }
 
+// relayFavour: the functions of the relay variant that hand their work over to threads.
+const relayFavour = "relay_start,relay_start,relay_start3,relay_fan,relay_busy,relay_direct,relay_fail"
+
 func hasFn(pl Payload, fn string) bool {
 	for _, op := range pl.Ops {
 		if op.Fn == fn {
@@ -197,6 +212,12 @@ func (c16) Run(c fw.Case) fw.Result {
 	}
 	if pl.NoCancel {
 		h.cover["variant:no-op-cancel"] = true
+	}
+	if pl.Variant.Relay {
+		h.cover["variant:relay"] = true
+	}
+	if pl.Reap {
+		h.cover["schedule:reap-before-spawn-and-exit"] = true
 	}
 	h.cover[fmt.Sprintf("limits:%d", pl.Limits.CallStack)] = true
 	res.Cover = sortedKeys(h.cover)
@@ -228,7 +249,7 @@ func (c16) OnCrash(c fw.Case, cr fw.Crash) fw.Result {
 	case "watchdog", "killed", "oom":
 		return fw.Result{Verdict: fw.Inconclusive, Why: "worker died: " + cr.Kind + " " + cr.Message + last}
 	case "step-budget":
-		return fw.Result{Verdict: fw.Violated, Sig: "crash:step-budget", Why: "a call executed more than 3M instructions although every modelled call needs fewer than 50k: the call does not return" + last}
+		return fw.Result{Verdict: fw.Violated, Sig: "crash:step-budget", Why: "a call executed more than 3M instructions although every modelled call needs fewer than 400k: the call does not return" + last}
 	}
 	msg := cr.Message
 	if strings.Contains(msg, "all goroutines are asleep") {
